@@ -2,6 +2,7 @@
 package simhost
 
 import (
+	"time"
 	"errors"
 	"net"
 	"sync"
@@ -26,6 +27,9 @@ type Host struct {
 	RoutesErr error
 	IfacesErr error
 	Calls     []string
+	// CallLatency > 0: every query of the host configuration (netlink dump) takes this long - a host
+	// with thousands of virtual interfaces, or one that is starved of CPU
+	CallLatency time.Duration
 }
 
 const key = "simhost"
@@ -121,6 +125,10 @@ func Addrs(ifi *net.Interface) ([]net.Addr, error) {
 		return nil, &net.OpError{Op: "route", Net: "ip+net", Err: errors.New("invalid network interface")}
 	}
 	h.note("Addrs:" + ifi.Name)
+	if h.CallLatency > 0 && simrt.IsScheduled() {
+		simrt.Fault("hostcfg-slow")
+		simrt.Sleep("hostcfg.latency", h.CallLatency)
+	}
 	for _, i := range h.Ifaces {
 		if i.Index == ifi.Index {
 			if i.AddrsErr != nil {
